@@ -80,6 +80,27 @@ pub fn in_shuttle<R: Send + 'static>(f: impl FnOnce() -> R + Send + 'static) -> 
     }
 }
 
+/// clock reads shuttle's runner makes per execution, measured on an empty one
+static CLOCK_OVERHEAD: std::sync::atomic::AtomicU64 = std::sync::atomic::AtomicU64::new(0);
+
+pub fn calibrate_clock_overhead() {
+    if !crate::clock::available() {
+        return;
+    }
+    crate::clock::set(&crate::clock::ClockSpec::base());
+    let r0 = crate::clock::reads();
+    let mut cfg = shuttle::Config::new();
+    cfg.failure_persistence = shuttle::FailurePersistence::None;
+    cfg.max_steps = shuttle::MaxSteps::None;
+    cfg.silence_warnings = true;
+    shuttle::Runner::new(SimScheduler::new(SchedSpec::List { choices: vec![] }), cfg).run(|| {
+        let h = shuttle::thread::spawn(|| {});
+        let _ = h.join();
+    });
+    CLOCK_OVERHEAD.store(crate::clock::reads() - r0, std::sync::atomic::Ordering::Relaxed);
+    crate::clock::passthrough();
+}
+
 pub const TEMPLATE_HASH_SEED: u64 = 0x00C0_FFEE_0000_0001;
 
 /// A converter that is neither the bundled nor the empty one: the bundled units plus a layer with
@@ -432,7 +453,7 @@ fn op_ctx(op: &Op, depth: u32) -> OpCtx {
                     action: SeamAction::Reenter(ctx.nested_ops.len() - 1),
                 });
             }
-            Fault::Write { .. } => {}
+            Fault::Write { .. } | Fault::Clock { .. } => {}
             Fault::Stall { seam, n, ms } => ctx.faults.push(SeamFault { seam: *seam, n: *n, action: SeamAction::Stall(*ms) }),
         }
     }
@@ -470,6 +491,14 @@ pub fn perform(parser: &CooklangParser, input: &str, op: &Op, faults: bool, dept
         input
     };
     let ctx = if faults { op_ctx(op, depth) } else { OpCtx { depth, ..Default::default() } };
+    if faults {
+        for f in &op.faults {
+            if let Fault::Clock { wall_s, step_us } = f {
+                sim::fired("clock_jump");
+                crate::clock::jump(&crate::clock::ClockSpec { wall_s: *wall_s, step_us: *step_us });
+            }
+        }
+    }
     sim::push_op(ctx);
     sim::seam(SeamKind::Op);
     let seen = RefCell::new(Vec::new());
@@ -739,7 +768,12 @@ fn check(env: &Env, op: &Op, obsd: &Observed, phase: &str, faults: bool) {
                     }
                 }
                 Some(c) => {
-                    if w.result.is_ok() || !golden.starts_with(acc) || w.result.err() != w.hard_error_kind {
+                    // success means everything was delivered (a renderer may retry); failure leaves a prefix
+                    let bad = match w.result {
+                        Ok(()) => *acc != golden,
+                        Err(_) => !golden.starts_with(acc),
+                    };
+                    if bad {
                         sim::violation("render-hard-fault-mishandled", &key, phase, format!("hard fault at call {c} ({:?}): result {:?}, calls after error {}, prefix {}", w.hard_error_kind, w.result, w.calls_after_error, golden.starts_with(acc)));
                     }
                 }
@@ -779,6 +813,11 @@ pub struct RunStats {
     pub fired: BTreeMap<String, u64>,
     pub choices: Vec<u16>,
     pub step_cap_hit: bool,
+    /// clock reads / sleeps made while time was simulated (the harness makes none: these are the library's)
+    #[serde(default)]
+    pub clock_reads: u64,
+    #[serde(default)]
+    pub clock_sleeps: u64,
 }
 
 pub struct RefPhase {
@@ -805,6 +844,31 @@ fn reference_phase_inner(sc: &Scenario, reverse: bool) -> RefPhase {
     sim::with(|s| {
         *s = sim::SimCtx::new();
     });
+    // simulated time: every phase starts at the same instant of the same day
+    crate::clock::set(&crate::clock::ClockSpec::base());
+    let r = reference_phase_inner2(sc, reverse);
+    crate::clock::passthrough();
+    r
+}
+
+/// The clock of the third ("ambient") reference pass: another date and another speed of time,
+/// a function of the scenario.
+fn ambient_clock(sc: &Scenario) -> crate::clock::ClockSpec {
+    let h = crate::rng::mix2(sc.hash_seed, 0xC10C);
+    let walls = [
+        crate::clock::EPOCH_A + 86_400,
+        crate::clock::EPOCH_A + 200 * 86_400,
+        crate::clock::EPOCH_A - 20 * 365 * 86_400,
+        2_400_000_000,
+        0,
+        2_147_483_647,
+        1_798_761_599,
+    ];
+    let steps = [1u64, 1_000, 50_000, 10_000_000];
+    crate::clock::ClockSpec { wall_s: walls[(h % walls.len() as u64) as usize], step_us: steps[((h >> 8) % steps.len() as u64) as usize] }
+}
+
+fn reference_phase_inner2(sc: &Scenario, reverse: bool) -> RefPhase {
     let mut parsers = Vec::new();
     if sc.fresh_build {
         cooklang::verif_seam::reseed(sc.hash_seed);
@@ -928,6 +992,9 @@ fn reference_phase_inner(sc: &Scenario, reverse: bool) -> RefPhase {
     // plus whatever looks like a variable name in the library's source) flips between set and
     // unset. The worker is single-threaded here, so changing the environment is safe.
     let flipped = flip_env();
+    // ... and at another date, with time running at another speed (the clock seam)
+    let amb_clock = ambient_clock(sc);
+    crate::clock::set(&amb_clock);
     let mut seen3 = std::collections::BTreeSet::new();
     for op in third_pass {
         let key = full_key(sc, &op);
@@ -943,7 +1010,20 @@ fn reference_phase_inner(sc: &Scenario, reverse: bool) -> RefPhase {
         };
         if let Some(first) = env.refs.get(&key) {
             if *first != fp {
-                // which of the two ambient changes was it? once more with the subscriber back on
+                // which of the ambient changes was it? once more with the clock of the first pass ...
+                crate::clock::set(&crate::clock::ClockSpec::base());
+                let fresh = template_clone(&sc.parsers[op.parser]);
+                cooklang::verif_seam::reseed(crate::rng::mix2(sc.hash_seed ^ 0x3333, seen3.len() as u64));
+                let base_clock = match perform(&fresh, &sc.inputs[op.input], &op, false, 0).outcome {
+                    Outcome::Done(s) => s,
+                    Outcome::Unwound => "UNWOUND-IN-REFERENCE".into(),
+                };
+                crate::clock::set(&amb_clock);
+                if base_clock == *first {
+                    sim::violation("ambient-dependence", &key, "reference", format!("the result depends on the clock (wall clock {} s since the epoch, {} us per read, instead of {} s / 1 us): {}", amb_clock.wall_s, amb_clock.step_us, crate::clock::EPOCH_A, first_diff(first, &fp)));
+                    continue;
+                }
+                // ... and once more with the subscriber back on
                 sim::set_trace(true);
                 let fresh = template_clone(&sc.parsers[op.parser]);
                 cooklang::verif_seam::reseed(crate::rng::mix2(sc.hash_seed ^ 0x3333, seen3.len() as u64));
@@ -963,6 +1043,7 @@ fn reference_phase_inner(sc: &Scenario, reverse: bool) -> RefPhase {
     }
     unflip_env(flipped);
     sim::set_trace(true);
+    crate::clock::set(&crate::clock::ClockSpec::base());
     // Fourth pass: the same text at another address (a sub-slice 1..7 bytes into a buffer)
     let mut seen4 = std::collections::BTreeSet::new();
     for mut op in fourth_pass {
@@ -1065,6 +1146,8 @@ pub fn execute(rp: &RefPhase, sched: &SchedSpec, want_log: bool) -> (Vec<Violati
     });
     cooklang::verif_seam::reseed(env.sc.hash_seed ^ 0x9999);
     env_set(Some(env.clone()));
+    crate::clock::set(&crate::clock::ClockSpec::base());
+    let (reads0, sleeps0) = (crate::clock::reads(), crate::clock::sleeps());
     let scheduler = SimScheduler::new(sched.clone());
     let record = scheduler.record.clone();
     let mut cfg = shuttle::Config::new();
@@ -1116,6 +1199,10 @@ pub fn execute(rp: &RefPhase, sched: &SchedSpec, want_log: bool) -> (Vec<Violati
     }
     #[cfg(not(feature = "shadow"))]
     post_phase(&env);
+    crate::clock::passthrough();
+    // (shuttle's runner itself reads the clock a fixed number of times per execution: calibrated
+    // once per process on an empty execution, see `calibrate_clock_overhead`)
+    let (clock_reads, clock_sleeps) = ((crate::clock::reads() - reads0).saturating_sub(CLOCK_OVERHEAD.load(std::sync::atomic::Ordering::Relaxed)), crate::clock::sleeps() - sleeps0);
     let choices = record.lock().unwrap().clone();
     sim::with(|s| {
         let stats = RunStats {
@@ -1130,6 +1217,8 @@ pub fn execute(rp: &RefPhase, sched: &SchedSpec, want_log: bool) -> (Vec<Violati
             fired: s.fired.iter().map(|(k, v)| (k.to_string(), *v)).collect(),
             choices,
             step_cap_hit: s.step_cap_hit,
+            clock_reads,
+            clock_sleeps,
         };
         let mut v = std::mem::take(&mut s.violations);
         if s.step_cap_hit {
@@ -1316,4 +1405,157 @@ pub fn confirm(sc: &Scenario, class: &str, tries: u64) -> (bool, String) {
         }
     }
     (false, format!("not reproduced by sequential variants nor by {tries} seeded schedules on real OS threads"))
+}
+
+// ---------------------------------------------------------------------------
+// depth of the caller: a parse started while N other parses are in progress on the same thread
+
+/// One chain of nested parses: a parse of `outer` whose caller-supplied code (event iterator,
+/// metadata validator or recipe-reference check) starts the next parse of `outer` before it
+/// returns, `depth` levels deep, with a plain parse of `target` innermost. A parse therefore
+/// *starts* with 0, 1, ... `depth` other parses in progress on its thread, and completes after
+/// they did. Every level must return what the same call returns at top level: how deep in the
+/// caller's stack a parse runs is not an input. (Re-entrant callers are legal - callbacks exist
+/// so that an application can look up, and typically parse, the recipe that is referenced.)
+#[derive(Clone, Debug, serde::Serialize, serde::Deserialize, PartialEq)]
+pub struct DepthCase {
+    pub cfg: ParserCfg,
+    pub outer: String,
+    pub target: String,
+    pub depth: u32,
+    /// "iter" | "validator" | "ref_check"
+    pub flavour: String,
+}
+
+fn depth_outer_text(dc: &DepthCase) -> String {
+    match dc.flavour.as_str() {
+        "validator" if !dc.outer.starts_with("---") => format!(">> note: x\n{}", dc.outer),
+        "ref_check" => format!("Serve with @@side dish{{}}.\n\n{}", dc.outer),
+        _ => dc.outer.clone(),
+    }
+}
+
+fn depth_level(parser: &CooklangParser, dc: &DepthCase, outer: &str, level: u32, results: &RefCell<Vec<(u32, String)>>, nested: Option<&dyn Fn()>) -> String {
+    let conv = parser.converter();
+    let fired = std::cell::Cell::new(false);
+    let hook = || {
+        if !fired.replace(true) {
+            if let Some(n) = nested {
+                n();
+            }
+        }
+    };
+    let _ = (level, results);
+    match dc.flavour.as_str() {
+        "iter" => {
+            struct It<'f, I> {
+                inner: I,
+                hook: &'f dyn Fn(),
+            }
+            impl<'i, 'f, I: Iterator<Item = cooklang::parser::Event<'i>>> Iterator for It<'f, I> {
+                type Item = cooklang::parser::Event<'i>;
+                fn next(&mut self) -> Option<Self::Item> {
+                    let ev = self.inner.next();
+                    (self.hook)();
+                    ev
+                }
+            }
+            let it = It { inner: PullParser::new(outer, parser.extensions()), hook: &hook };
+            let r = analysis::parse_events(it, outer, parser.extensions(), conv, ParseOptions::default());
+            fp_result(&r, outer, conv)
+        }
+        "validator" => {
+            let mut o = ParseOptions::default();
+            o.metadata_validator = Some(Box::new(|_k: &serde_yaml::Value, _v: &serde_yaml::Value, _o: &mut analysis::CheckOptions| {
+                hook();
+                CheckResult::Ok
+            }));
+            let r = parser.parse_with_options(outer, o);
+            fp_result(&r, outer, conv)
+        }
+        _ => {
+            let mut o = ParseOptions::default();
+            o.recipe_ref_check = Some(Box::new(|_name: &str| {
+                hook();
+                CheckResult::Ok
+            }));
+            let r = parser.parse_with_options(outer, o);
+            fp_result(&r, outer, conv)
+        }
+    }
+}
+
+fn depth_chain(parser: &CooklangParser, dc: &DepthCase, outer: &str, level: u32, results: &RefCell<Vec<(u32, String)>>) {
+    if level == dc.depth {
+        let fp = match guarded(|| fp_result(&parser.parse(&dc.target), &dc.target, parser.converter())) {
+            Outcome::Done(s) => s,
+            Outcome::Unwound => "UNWOUND".into(),
+        };
+        results.borrow_mut().push((level, fp));
+        return;
+    }
+    let next = || depth_chain(parser, dc, outer, level + 1, results);
+    let fp = match guarded(|| depth_level(parser, dc, outer, level, results, Some(&next))) {
+        Outcome::Done(s) => s,
+        Outcome::Unwound => "UNWOUND".into(),
+    };
+    results.borrow_mut().push((level, fp));
+}
+
+/// Returns the violations (class `depth-dependence`) and the number of parses made.
+pub fn run_depth_case(dc: &DepthCase) -> (Vec<Violation>, u64) {
+    let (v, n, _) = run_depth_case_reached(dc);
+    (v, n)
+}
+
+/// ... and the deepest level a parse actually ran at (the caller's code of some outer texts is
+/// never called - a validator without a metadata entry - and then the chain ends early)
+pub fn run_depth_case_reached(dc: &DepthCase) -> (Vec<Violation>, u64, u32) {
+    let outer = depth_outer_text(dc);
+    // references: the same calls at top level, on this (the worker's) thread, on a never-used parser
+    let ref_parser = build_parser(&dc.cfg);
+    let none = DepthCase { depth: 0, ..dc.clone() };
+    let empty = RefCell::new(Vec::new());
+    let ref_outer = match guarded(|| depth_level(&ref_parser, &none, &outer, 0, &empty, None)) {
+        Outcome::Done(s) => s,
+        Outcome::Unwound => "UNWOUND".into(),
+    };
+    let ref_target = match guarded(|| fp_result(&ref_parser.parse(&dc.target), &dc.target, ref_parser.converter())) {
+        Outcome::Done(s) => s,
+        Outcome::Unwound => "UNWOUND".into(),
+    };
+    // the chain runs on a thread of its own whose stack is large enough for any depth asked for
+    // (about 20-60 KiB per level with debug assertions): a stack overflow would kill the worker
+    let stack = (64usize << 20) + dc.depth as usize * (512 << 10);
+    let dc2 = dc.clone();
+    let outer2 = outer.clone();
+    let shared = build_parser(&dc.cfg);
+    let handle = std::thread::Builder::new().name("cooksim-depth".into()).stack_size(stack).spawn(move || {
+        let results = RefCell::new(Vec::new());
+        depth_chain(&shared, &dc2, &outer2, 0, &results);
+        results.into_inner()
+    });
+    let results = match handle.map(|h| h.join()) {
+        Ok(Ok(r)) => r,
+        _ => return (vec![Violation { class: "harness".into(), key: String::new(), phase: "depth".into(), detail: "the depth thread could not be started or died".into() }], 0, 0),
+    };
+    let reached = results.iter().map(|r| r.0).max().unwrap_or(0);
+    let mut out = Vec::new();
+    let n = results.len() as u64;
+    // report the shallowest level that differs
+    let mut results = results;
+    results.sort_by_key(|r| r.0);
+    for (level, fp) in &results {
+        let (reference, what) = if *level == dc.depth { (&ref_target, "the innermost parse") } else { (&ref_outer, "a parse") };
+        if fp != reference {
+            out.push(Violation {
+                class: "depth-dependence".into(),
+                key: format!("{}|{}|depth {}", dc.cfg.key(), dc.flavour, level),
+                phase: "depth".into(),
+                detail: format!("{what} started while {level} other parse(s) were in progress on the same thread (nested through the caller's {}) differs from the same call at top level: {}", dc.flavour, first_diff(reference, fp)),
+            });
+            break;
+        }
+    }
+    (out, n + 2, reached)
 }
